@@ -279,6 +279,22 @@ def rule_ownership(ctx):
     ctx.ob("a successful join refills the budget of the joined transport",
            any(isinstance(c.func, ast.Attribute) and c.func.attr == "reset" and norm.text(c.func.value) == "transport" for c in calls_in(oj.node)),
            "on_join does not reset the transport", oj.loc())
+    # "since that transport's last successful join": the listener that refills the budget is attached to EVERY session, whatever else the
+    # component was configured with (main function or not), and reaches the reset on every path
+    cs = closure(once, "create_session")
+    gcs = CFG(cs.node)
+    from ..core.cfg import MustFacts as _MF
+    mcs = _MF(gcs, resolver=norm.Resolver(p, cs.module, cs.cls))
+    regs = [(n, c) for n in gcs.stmt_nodes() for c in node_calls(n) if isinstance(c.func, ast.Attribute) and c.func.attr == "on" and len(c.args) == 2
+            and isinstance(c.args[0], ast.Constant) and c.args[0].value == "join" and norm.text(c.args[1]) == oj.name]
+    cond = [f for n, c in regs for f in (mcs.at(n) or ()) if any(m.startswith("self._") for m in norm.mentions(f))]
+    ctx.ob("the budget-refilling join listener is attached to every session the component creates", len(regs) == 1 and not cond,
+           f"registration {'missing' if not regs else 'only under ' + str(cond[:1])}: a component configured without that option counts its attempts across successful "
+           f"joins and gives up after max_retries reconnects in total", cs.loc(regs[0][1]) if regs else cs.loc())
+    goj = CFG(oj.node)
+    rnode = [n for n in goj.stmt_nodes() for c in node_calls(n) if isinstance(c.func, ast.Attribute) and c.func.attr == "reset" and norm.text(c.func.value) == "transport"]
+    ctx.ob("the join listener reaches the reset on every path", bool(rnode) and goj.always_followed_by(goj.entry, lambda x: x in rnode, exc=False),
+           "a path through on_join skips transport.reset()", oj.loc())
     fails = attr_call_sites("failed")
     ctx.require(len(fails) >= 1, "failed() call site not found")
     for f, c in fails:
@@ -593,7 +609,14 @@ def rule_completion(ctx):
     for nd, c in reg:
         f = mfc.at(nd) or ()
         if c.args[0].value == "join":
-            ctx.ob("main is run on join iff a main function was given", ("is", "self._entry", ("c", None), False) in f, "join listener not guarded by `_entry is not None`", cs.loc(c))
+            # main is started only when there is one: the guard sits at the registration or inside the listener, before main is called
+            ojf = closure(once, "create_session.on_join")
+            goj_ = CFG(ojf.node)
+            mfo = MustFacts(goj_, resolver=norm.Resolver(p, ojf.module, ojf.cls))
+            runs = [n_ for n_ in goj_.stmt_nodes() for c_ in node_calls(n_) if call_name(c_) == "txaio.as_future" and c_.args and is_self_attr(c_.args[0], "_entry")]
+            guard = ("is", "self._entry", ("c", None), False)
+            okm = bool(runs) and all(guard in f or guard in (mfo.at(n_) or ()) or ("truth", "self._entry", None, True) in (mfo.at(n_) or ()) for n_ in runs)
+            ctx.ob("main is run on join only when a main function was given", okm, "main started without a test that there is one", ojf.loc())
         else:
             cond = [x for x in f if x[0] in ("truth", "is", "eq", "in") and "session" not in str(x[1]) and "auth" not in str(x[1])]
             ctx.ob(f"the {c.args[0].value} listener is registered unconditionally", not cond, f"registered only under {cond}", cs.loc(c))
